@@ -64,6 +64,78 @@ func runC20(c *Ctx) {
 		c.floor("break-releases-all", "break paths", n, 2)
 		c.check(len(bad) == 0, "break-releases-all", fnKey(sync), p.FnPos(sync), fmt.Sprintf("on all %d break paths the release count is the table's full player count", n), "a broken table strands players", uniq(bad, 3)...)
 	}
+	// ---- targets-agree: the level a low table is topped up to, the level above which a table has a
+	// surplus, and the level at which releasing stops are one and the same function of the water
+	// level; otherwise a table topped up to one level is drained again towards another, forever
+	{
+		ra := resolveRegAnchors(p)
+		s := regSumm(p, 0)
+		s.HelperInline = ra.helperFilter(p, sync)
+		paths, _ := s.Function(sync)
+		targets := map[string]map[string]bool{"top-up": {}, "surplus": {}, "stop": {}}
+		roundingOf := func(term string) string {
+			for _, fn := range []string{"math.Floor(", "math.Ceil(", "math.Round(", "math.Trunc("} {
+				if i := strings.Index(term, fn); i >= 0 {
+					return term[i:]
+				}
+			}
+			return term
+		}
+		for _, ps := range paths {
+			for _, e := range callsToAny(ps, ra.poppers) {
+				for t, co := range e.Args[1].asAff().T {
+					if co == 1 && strings.Contains(t, "math.") {
+						targets["top-up"][strings.TrimSuffix(roundingOf(t), ")")] = true
+					}
+				}
+			}
+			for _, e := range ps.Events {
+				if e.Kind != "loop" {
+					continue
+				}
+				// surplus: the loop bound is PlayerCount - T
+				ci := analyseCounting(e.Loop)
+				if ci.OK {
+					// evaluate the bound on the function path: find it among the path's values via the body summary
+				}
+				body, _ := s.LoopBody(e.InFn, e.Loop)
+				for _, bp := range body {
+					for _, cd := range bp.Conds {
+						str := cd.V.String()
+						if cd.V.K == KAtom && cd.V.At.Op == "b" && strings.Contains(str, "calculateLowerWaterLevel(") || strings.Contains(str, ">= math.") {
+							if i := strings.Index(str, ">= "); i >= 0 {
+								targets["stop"][strings.TrimRight(roundingOf(str[i+3:]), ")")] = true
+							}
+						}
+						if a, ok := ltForm(cd.V); ok {
+							for t, co := range a.T {
+								if co == 1 && strings.Contains(t, "math.") && strings.HasPrefix(t, "conv:int(") {
+									targets["surplus"][strings.TrimSuffix(roundingOf(t), ")")] = true
+								}
+								if co == -1 && strings.Contains(t, "math.") && strings.HasPrefix(t, "conv:int(") {
+									targets["surplus"][strings.TrimSuffix(roundingOf(t), ")")] = true
+								}
+							}
+						}
+					}
+				}
+			}
+		}
+		norm := func(m map[string]bool) []string {
+			out := map[string]bool{}
+			for k := range m {
+				// keep only the rounding function and drop the loop-local naming of the water level
+				if i := strings.Index(k, "("); i > 0 {
+					out[k[:i]] = true
+				}
+			}
+			return sortedSet(out)
+		}
+		tu, su, st := norm(targets["top-up"]), norm(targets["surplus"]), norm(targets["stop"])
+		okT := len(tu) == 1 && len(st) == 1 && tu[0] == st[0] && (len(su) == 0 || (len(su) == 1 && su[0] == tu[0]))
+		c.check(okT, "targets-agree", fnKey(sync), p.FnPos(sync), fmt.Sprintf("top-up target, surplus threshold and release stop level all use %v of the water level", tu), fmt.Sprintf("the balancing targets disagree: top-up %v, surplus %v, stop %v — tables are filled to one level and drained towards another", tu, su, st))
+	}
+
 	// ---- released-are-queued
 	{
 		c.touch(fnKey(rel))
